@@ -157,3 +157,196 @@ Proof.
   split; [cbn; tauto|]. split; [vm_compute; tauto|].
   repeat constructor; try discriminate; vm_compute; reflexivity.
 Qed.
+
+(* ==========================================================================================================================
+   THROUGH THE FILE BYTES.  Model/CliFile.v composes the text layer above with the byte-exact writer and reader models:
+     bedgraphtobigwig_file pf fp o two_pass cs_text in_text : res (list N)    the BYTES of the bigWig the tool writes
+     bedtobigbed_file fp o two_pass autosql cs_text in_text : res (list N)    the BYTES of the bigBed
+     bigwigtobedgraph_records / _file infl [pr] bs chrom start end            BigWigRead::open on the bytes, chromosomes in TABLE
+     bigbedtobed_records / _file infl bs chrom start end                      order, one get_interval each, one line per record
+   [pf] = str::parse::<f32> (token -> bit pattern), [pr] = ryu (bit pattern -> token), [infl] = the decompressor, [fp] = the
+   rounding mode of the summary arithmetic, [two_pass] = write_multipass / --single-pass: all universally quantified.
+   The theorems below are compositions: C13's accept rule (the writer returns a file for every text the rule accepts),
+   C01_query_on_input / C01_roundtrip_on_input and C02_written_file_roundtrip / C04_written_file_query (what the reader returns
+   from those bytes), the chromosome-table theorems (order of the output), and the text round trips above.  Nothing about the
+   formats is re-proved (Proofs/CliEndToEnd.v; examples computed in Proofs/CliEndToEndEx.v).
+   What is NOT in these statements: thread counts / --parallel / --inmemory (C11: same bytes and same text for every schedule),
+   compression (the modelled writers emit uncompressed files; C01_*_compressed has the reader side for any round-tripping
+   compressor), clap.  The glue of Model/CliFile.v itself is not compared with the binaries by the check; its parts are
+   (CliText.v here, the writers and readers byte for byte by C01/C02). *)
+From BT Require Import Base.LE Base.Float Model.RTree Model.AutoSql Model.BigBedWrite Model.BBIReadBed Model.CliFile.
+From BT Require Import Proofs.RTreeCodec Proofs.BigWigFileChroms Proofs.BigWigFileInput Proofs.AcceptRules Proofs.CliEndToEnd Proofs.CliEndToEndEx.
+From BT Require Model.Accept Model.AcceptBed Proofs.BigWigFileRoundTrip Proofs.BedCodec Proofs.BedReadInfo Proofs.BedEndToEnd.
+
+(* bedGraph -> bigWig -> bedGraph.  For a chrom.sizes text and a bedGraph text that parse to [sizes] and [items], with the items
+   accepted by the writer rule of C13 (non-empty; every value start <= end <= chromosome size; a value's successor on the same
+   chromosome starts at or after its end; chromosomes known, none coming back, ascending when sorted input is required):
+   the converter model returns a file [bs], and bigwigtobedgraph on those BYTES returns the records of the input text in input
+   order - chromosome, start, end identical, value bit pattern identical - except zero-length values at position 0 / at the end
+   of their chromosome (K1, C01's known finding: parse_bedgraph accepts start = end, the writer stores such values, the reader's
+   filter start < e && end > s drops them); with no empty value: exactly the input records.
+   Hypotheses besides the rule: C01's field-width guards [opts_ok] (2 <= block_size <= 65535, 1 <= items_per_slot <= 65535),
+   [input_ok] (names NUL-free and < 2^32 bytes, < 65536 chromosomes, sizes and bit patterns u32: see C16_bedgraph_input_ok for
+   what the parsers already guarantee), file shorter than 2^64 bytes.  No hypothesis on the sort mode: the table is in order of
+   first appearance and an accepted input has one run per chromosome. *)
+Theorem C16_bedgraph_file_roundtrip : forall pf fp o two_pass cs_text in_text sizes items,
+  parse_chrom_sizes cs_text = Ok sizes -> mapM (parse_bedgraph pf) (lines in_text) = Ok items ->
+  BigWigFileRoundTrip.opts_ok o -> BigWigFileRoundTrip.input_ok sizes items ->
+  items <> [] -> stream_ok bw_good_val bw_good_pair (o_sort_all o) sizes [] None items ->
+  exists bs, bedgraphtobigwig_file pf fp o two_pass cs_text in_text = Ok bs /\
+    (Nlen bs < U64 -> forall infl,
+       bigwigtobedgraph_records infl bs None None None = Ok (filter (fun it => negb (bzero sizes it)) items)
+       /\ (Forall (fun it : item => v_start (snd it) < v_end (snd it)) items ->
+           bigwigtobedgraph_records infl bs None None None = Ok items)).
+Proof. exact bedgraph_file_roundtrip. Qed.
+Print Assumptions C16_bedgraph_file_roundtrip.
+
+(* the same at text level, for any printer [pr]: the output text is one line per input record with the value printed by [pr]; if
+   printer and parser fit together on the values of the input ([printer_ok]: the printed token is non-empty, has no TAB / NL /
+   trailing white space, and pf maps it back to the bit pattern) the output text parses to the same records: text in = text out
+   up to the formatting of the numbers *)
+Theorem C16_bedgraph_file_text : forall pf pr fp o two_pass cs_text in_text sizes items,
+  parse_chrom_sizes cs_text = Ok sizes -> mapM (parse_bedgraph pf) (lines in_text) = Ok items ->
+  BigWigFileRoundTrip.opts_ok o -> BigWigFileRoundTrip.input_ok sizes items ->
+  items <> [] -> stream_ok bw_good_val bw_good_pair (o_sort_all o) sizes [] None items ->
+  Forall (fun it : item => v_start (snd it) < v_end (snd it)) items ->
+  exists bs, bedgraphtobigwig_file pf fp o two_pass cs_text in_text = Ok bs /\
+    (Nlen bs < U64 -> forall infl,
+       bigwigtobedgraph_file infl pr bs None None None = Ok (format_bedgraph_records pr items)
+       /\ (Forall (fun it : item => printer_ok pf pr (v_bits (snd it))) items ->
+           mapM (parse_bedgraph pf) (lines (format_bedgraph_records pr items)) = Ok items)).
+Proof. exact bedgraph_file_text. Qed.
+Print Assumptions C16_bedgraph_file_text.
+
+(* BED -> bigBed -> BED.  For texts that parse, with the entries accepted by the bigBed writer rule of C13 (option guards,
+   autoSql text without NUL - automatic unless --autosql supplies one -, non-empty, start <= end, start < chromosome size, starts
+   non-decreasing, chromosome rules as above): the converter model returns a file [f], and bigbedtobed on those BYTES returns
+   the records of the input in input order with the extra columns byte for byte; the text it prints is the canonical formatting
+   of the records, parses back to them, and IS the input text when the input text was canonical.
+   Hypotheses besides the rule: C02's [file_hyps] (block_size <= 65535, < 65536 chromosomes, names NUL-free and < 2^32 bytes,
+   positions and sizes u32, extra columns NUL-free, no entry [0,0), file <= 2^64 bytes; C16_bed_file_hyps says which follow
+   from parsing).  K2 (C02/C04's known finding): an entry [0,0) is written and makes the reader fail (C16_ex_file_k2). *)
+Theorem C16_bed_file_roundtrip : forall fp o two_pass user_autosql cs_text in_text sizes items,
+  parse_chrom_sizes cs_text = Ok sizes -> mapM parse_bed (lines in_text) = Ok items ->
+  (forall s, user_autosql = Some s -> AcceptBed.has_nul s = false) ->
+  Accept.opts_ok o = true -> items <> [] ->
+  stream_ok bb_good_val bb_good_pair (o_sort_all o) sizes [] None (AcceptBed.bb_items (to_bitems items)) ->
+  exists f, bedtobigbed_file fp o two_pass user_autosql cs_text in_text = Ok f /\
+    (BedEndToEnd.file_hyps o sizes (to_bitems items) f -> forall infl,
+       bigbedtobed_records infl f None None None = Ok items
+       /\ bigbedtobed_file infl f None None None = Ok (format_bed_text items)
+       /\ mapM parse_bed (lines (format_bed_text items)) = Ok items
+       /\ (forall items0, Forall canonical_bed items0 -> in_text = format_bed_text items0 ->
+             bigbedtobed_file infl f None None None = Ok in_text)).
+Proof. exact bed_file_roundtrip. Qed.
+Print Assumptions C16_bed_file_roundtrip.
+
+(* --chrom / --start / --end on the BYTES the model converter wrote.  bigWig: for a chromosome of the input, the output is the
+   answer of C01_query_on_input on those bytes (bw_interval = header -> chromosome tree -> index search -> blocks -> clip) for
+   [start or 0, end or chromosome size), i.e. clip_filter of the input's values of that chromosome, each labelled with the name;
+   a chromosome not in the input and --start/--end without --chrom print nothing. *)
+Theorem C16_restrict_file_bigwig : forall pf fp o two_pass cs_text in_text sizes items bs,
+  parse_chrom_sizes cs_text = Ok sizes -> mapM (parse_bedgraph pf) (lines in_text) = Ok items ->
+  BigWigFileRoundTrip.opts_ok o -> BigWigFileRoundTrip.input_ok sizes items ->
+  bedgraphtobigwig_file pf fp o two_pass cs_text in_text = Ok bs -> Nlen bs < U64 ->
+  forall infl st en,
+    (forall c, In c (map fst items) ->
+       exists len i, lookup c sizes = Some len /\ read_info bs = Ok i /\
+         let s := match st with Some s => s | None => 0 end in
+         let e := match en with Some e => e | None => len end in
+         bw_interval infl bs i c s e = Ok (clip_filter s e (vals_of items c)) /\
+         bigwigtobedgraph_records infl bs (Some c) st en = Ok (map (fun v => (c, v)) (clip_filter s e (vals_of items c))))
+    /\ (forall c, ~ In c (map fst items) -> bigwigtobedgraph_records infl bs (Some c) st en = Ok [])
+    /\ ((st <> None \/ en <> None) -> bigwigtobedgraph_records infl bs None st en = Ok []).
+Proof. exact restrict_file_bigwig. Qed.
+Print Assumptions C16_restrict_file_bigwig.
+
+(* bigBed: for a chromosome run (c, es) of the input, the output is the answer of C04_written_file_query on the bytes: the
+   entries of c that the reader's inclusive test keeps (end >= s && start <= e), stored order, rest fields unchanged *)
+Theorem C16_restrict_file_bigbed : forall fp o two_pass user_autosql cs_text in_text sizes items f,
+  parse_chrom_sizes cs_text = Ok sizes -> mapM parse_bed (lines in_text) = Ok items ->
+  bedtobigbed_file fp o two_pass user_autosql cs_text in_text = Ok f -> BedEndToEnd.file_hyps o sizes (to_bitems items) f ->
+  forall infl st en,
+    (forall c es, In (c, es) (bruns (to_bitems items)) ->
+       exists len i, lookup c sizes = Some len /\ read_info f = Ok i /\
+         let s := match st with Some s => s | None => 0 end in
+         let e := match en with Some e => e | None => len end in
+         bb_interval infl f i c s e = Ok (filter (bkeep s e) es) /\
+         bigbedtobed_records infl f (Some c) st en = Ok (map (fun x => (c, of_entry x)) (filter (bkeep s e) es)))
+    /\ (forall c, ~ In c (map fst items) -> bigbedtobed_records infl f (Some c) st en = Ok [])
+    /\ ((st <> None \/ en <> None) -> bigbedtobed_records infl f None st en = Ok []).
+Proof. exact restrict_file_bigbed. Qed.
+Print Assumptions C16_restrict_file_bigbed.
+
+(* which of the field-width hypotheses the parsers already guarantee: sizes and positions are u32 (parse_u32 refuses the rest),
+   value patterns are u32 when the float parser returns f32 patterns; left over: names (NUL-free, < 2^32 bytes), the number of
+   chromosomes, and for BED NUL-free extra columns and no entry [0,0) *)
+Theorem C16_bedgraph_input_ok : forall pf cs_text in_text sizes items,
+  parse_chrom_sizes cs_text = Ok sizes -> mapM (parse_bedgraph pf) (lines in_text) = Ok items ->
+  (forall t b, pf t = Some b -> b < U32) ->
+  Forall (fun it : item => no_zero (fst it) /\ Nlen (fst it) < U32) items -> Nlen (runs items) < U16 ->
+  BigWigFileRoundTrip.input_ok sizes items.
+Proof. exact bedgraph_input_ok. Qed.
+Print Assumptions C16_bedgraph_input_ok.
+
+Theorem C16_bed_file_hyps : forall o cs_text in_text sizes items f,
+  parse_chrom_sizes cs_text = Ok sizes -> mapM parse_bed (lines in_text) = Ok items ->
+  o_bs o <= 65535 -> Nlen (bruns (to_bitems items)) < U16 ->
+  Forall (fun it : name * bed_entry => BedReadInfo.no_nul_name (fst it) /\ Nlen (fst it) < U32 /\ BedCodec.no_nul (be_rest (snd it))
+                                       /\ ~ (be_start (snd it) = 0 /\ be_end (snd it) = 0)) items ->
+  Nlen f <= U64 -> BedEndToEnd.file_hyps o sizes (to_bitems items) f.
+Proof. exact bed_file_hyps_of_text. Qed.
+Print Assumptions C16_bed_file_hyps.
+
+(* ---- non-vacuity, computed: "chr1 1000 / chr2 500", a four-line two-chromosome bedGraph text and a four-line BED text with
+   overlapping, nested and zero-length entries and a UTF-8 extra column, toy printer/parser pair (decimal reading of the bit
+   pattern), items_per_slot = 2 (two data blocks on chr1), both pass modes.  Every hypothesis holds and the whole pipeline
+   text -> bytes -> text is evaluated: the text comes back byte for byte, the restricted runs print the range-query answers. ---- *)
+Example C16_ex_file_bedgraph :
+  (parse_chrom_sizes ex_cs_text = Ok ex_szs /\ mapM (parse_bedgraph toy_pf) (lines ex_bg_text) = Ok ex_bg_items
+   /\ BigWigFileRoundTrip.opts_ok ex_o /\ BigWigFileRoundTrip.input_ok ex_szs ex_bg_items /\ ex_bg_items <> []
+   /\ stream_ok bw_good_val bw_good_pair (o_sort_all ex_o) ex_szs [] None ex_bg_items
+   /\ Forall (fun it : item => v_start (snd it) < v_end (snd it)) ex_bg_items
+   /\ Forall (fun it : item => printer_ok toy_pf toy_pr (v_bits (snd it))) ex_bg_items)
+  /\ forall two_pass,
+       match bedgraphtobigwig_file toy_pf ieee ex_o two_pass ex_cs_text ex_bg_text with
+       | Ok bs => Nlen bs < U64
+                  /\ bigwigtobedgraph_records idf bs None None None = Ok ex_bg_items
+                  /\ bigwigtobedgraph_file idf toy_pr bs None None None = Ok ex_bg_text
+                  /\ bigwigtobedgraph_file idf toy_pr bs (Some chr1) (Some 5) (Some 12) = Ok ex_bg_restricted
+                  /\ bigwigtobedgraph_file idf toy_pr bs (Some [120]) None None = Ok []
+                  /\ bigwigtobedgraph_file idf toy_pr bs None (Some 5) None = Ok []
+       | _ => False
+       end.
+Proof. exact (conj ex_bedgraph_hyps ex_bedgraph_run). Qed.
+Example C16_ex_file_bed :
+  (parse_chrom_sizes ex_cs_text = Ok ex_szs /\ mapM parse_bed (lines ex_bed_text) = Ok ex_bed_items
+   /\ Accept.opts_ok ex_o = true /\ ex_bed_items <> []
+   /\ stream_ok bb_good_val bb_good_pair (o_sort_all ex_o) ex_szs [] None (AcceptBed.bb_items (to_bitems ex_bed_items))
+   /\ forall two_pass, exists f, bedtobigbed_file ieee ex_o two_pass None ex_cs_text ex_bed_text = Ok f
+                                 /\ BedEndToEnd.file_hyps ex_o ex_szs (to_bitems ex_bed_items) f)
+  /\ forall two_pass,
+       match bedtobigbed_file ieee ex_o two_pass None ex_cs_text ex_bed_text with
+       | Ok f => bigbedtobed_records idf f None None None = Ok ex_bed_items
+                 /\ bigbedtobed_file idf f None None None = Ok ex_bed_text
+                 /\ bigbedtobed_file idf f (Some chr1) (Some 9) None = Ok ex_bed_restricted
+                 /\ bigbedtobed_file idf f (Some [120]) None None = Ok []
+                 /\ bigbedtobed_file idf f None None (Some 5) = Ok []
+       | _ => False
+       end.
+Proof. exact (conj ex_bed_hyps ex_bed_run). Qed.
+(* why the exclusions are there: K1 (chr1 0 0 5 / chr1 0 10 7 / chr1 1000 1000 9 is accepted and comes back as chr1 0 10 7) and
+   K2 (chr1 0 0 x / chr1 0 10 is accepted and written, bigbedtobed fails with InvalidFile) through the tools *)
+Example C16_ex_file_k1 :
+  exists items, mapM (parse_bedgraph toy_pf) (lines k1_text) = Ok items
+    /\ stream_ok bw_good_val bw_good_pair (o_sort_all ex_o) ex_szs [] None items
+    /\ filter (fun it => negb (bzero ex_szs it)) items = [(chr1, {| v_start := 0; v_end := 10; v_bits := 7 |})]
+    /\ forall two_pass, match bedgraphtobigwig_file toy_pf ieee ex_o two_pass ex_cs_text k1_text with
+                        | Ok bs => bigwigtobedgraph_file idf toy_pr bs None None None = Ok k1_out
+                        | _ => False end.
+Proof. exact ex_k1_zero_length_lost. Qed.
+Example C16_ex_file_k2 : forall two_pass,
+  match bedtobigbed_file ieee ex_o two_pass None ex_cs_text k2_text with
+  | Ok f => bigbedtobed_file idf f None None None = Err R_INVALID
+  | _ => False end.
+Proof. exact ex_k2_zero_zero_refused. Qed.
